@@ -63,7 +63,38 @@ static inline uint64_t v_f32(float f) { uint32_t b; memcpy(&b, &f, 4); return b;
 static inline uint64_t v_f64(double f) { uint64_t b; memcpy(&b, &f, 8); return b; }
 static inline float v_tof32(uint64_t b) { uint32_t x = (uint32_t)b; float f; memcpy(&f, &x, 4); return f; }
 static inline double v_tof64(uint64_t b) { double f; memcpy(&f, &b, 8); return f; }
+/* value digest (FNV-1a over 64-bit words) of the local `h` */
+#define H(x) (h = (h ^ (uint64_t)(x)) * 0x100000001b3ull)
 "#;
+
+/// C statements that add value `e` of type `t`, read through the generated C types, to the
+/// digest `h` (the walk of `exec::probe_digest`)
+fn c_walk(t: &refabi::Ty, e: &str, depth: usize) -> String {
+    use refabi::Ty;
+    match t {
+        Ty::Bool => format!("H(({e}) ? 1 : 0);\n"),
+        Ty::U8 | Ty::U16 | Ty::U32 | Ty::U64 | Ty::S8 | Ty::S16 | Ty::S32 | Ty::S64 => format!("H((uint64_t)(int64_t)({e}));\n"),
+        Ty::Char => format!("H((uint64_t)(uint32_t)({e}));\n"),
+        Ty::F32 => format!("{{ float f = ({e}); H(f != f ? 0x7fc00000ull : v_f32(f)); }}\n"),
+        Ty::F64 => format!("{{ double f = ({e}); H(f != f ? 0x7ff8000000000000ull : v_f64(f)); }}\n"),
+        Ty::String => format!("H(({e}).len); for (size_t i{depth} = 0; i{depth} < ({e}).len; i{depth}++) H(({e}).ptr[i{depth}]);\n"),
+        Ty::List(t) => format!("H(({e}).len); for (size_t i{depth} = 0; i{depth} < ({e}).len; i{depth}++) {{\n{}}}\n", c_walk(t, &format!("({e}).ptr[i{depth}]"), depth + 1)),
+        Ty::Record(fs) => fs.iter().map(|(n, t)| c_walk(t, &format!("({e}).{n}"), depth + 1)).collect(),
+        Ty::Tuple(ts) => ts.iter().enumerate().map(|(i, t)| c_walk(t, &format!("({e}).f{i}"), depth + 1)).collect(),
+        Ty::Option(t) => format!("if (({e}).is_some) {{ H(1);\n{}}} else {{ H(0); }}\n", c_walk(t, &format!("({e}).val"), depth + 1)),
+        Ty::Result(a, b) => format!(
+            "if (({e}).is_err) {{ H(1);\n{}}} else {{ H(0);\n{}}}\n",
+            b.as_ref().map(|t| c_walk(t, &format!("({e}).val.err"), depth + 1)).unwrap_or_default(),
+            a.as_ref().map(|t| c_walk(t, &format!("({e}).val.ok"), depth + 1)).unwrap_or_default()
+        ),
+        Ty::Variant(cs) => {
+            let arms: String = cs.iter().enumerate().map(|(i, (n, t))| format!("case {i}: {{\n{}break; }}\n", t.as_ref().map(|t| c_walk(t, &format!("({e}).val.{n}"), depth + 1)).unwrap_or_default())).collect();
+            format!("H(({e}).tag); switch (({e}).tag) {{\n{arms}}}\n")
+        }
+        Ty::Enum(_) | Ty::Flags(_) => format!("H((uint64_t)({e}));\n"),
+        _ => String::new(),
+    }
+}
 
 fn c_pack(ty: &str, e: &str) -> String {
     match ty.trim() {
@@ -161,6 +192,15 @@ pub fn c_glue(world: &ProxyWorld, header: &str, source: &str) -> Result<(String,
         let args: Vec<String> = ps.iter().map(|(t, n)| if t.ends_with('*') { format!("(void *){n}") } else { n.clone() }).collect();
         let call = format!("v_w_api_f{i}({})", args.join(", "));
         let mut body = String::new();
+        // the implementation looks at what it received through the generated C types and
+        // reports a digest of it (the host recomputes it from the values it sent)
+        body.push_str("{ uint64_t h = 0xcbf29ce484222325ull;\n");
+        for (j, t) in world.funcs[i].params.iter().enumerate() {
+            let Some((cty, n)) = ps.iter().find(|(_, n)| *n == format!("p{j}")) else { return Err(format!("harness: no C parameter p{j} in the prototype of exports_v_w_api_f{i}")) };
+            let e = if cty.ends_with('*') { format!("(*{n})") } else { n.clone() };
+            body.push_str(&c_walk(t, &e, 0));
+        }
+        body.push_str(&format!("uint64_t pr = 0; v_host({}, &h, 1, &pr); }}\n", 8000 + i));
         if ret == "void" {
             body.push_str(&format!("{call};\n"));
         } else {
